@@ -639,6 +639,9 @@ func (w *vfWorld) finishStep(p *vfPrepared) {
 	if p.intent.CertReq != nil {
 		m.observeCertgen(ctx, p.intent, resp)
 	}
+	if p.intent.Role != nil {
+		m.observeRole(ctx, p.intent, resp)
+	}
 	for _, ob := range w.observers {
 		ob(p, ctx, resp)
 	}
